@@ -6,6 +6,14 @@ import numpy as np
 from .. import run as R
 from ..util import (Tok, split_hooks, harness_targets, build_or_fail, all_shapes, fmt_vec, HookAcc, SITE_NAMES)
 
+SAN = "ASan+UBSan+_GLIBCXX_ASSERTIONS build of the harness from the working tree"
+CLAIM = dict(
+    technique="runtime monitoring: sanitizer-instrumented execution + big-int reference oracle over recorded index computations; bounds hooks in ndarray access",
+    text="Executes compute_strides/compute_offset/compute_indices/ndindex and ndarray element access for every shape of dim 1..4 (thorough: ..5) with small extents, every flat offset, 4 run-time container kinds x 4 index element types, plus sampled shapes with 2^24..2^40 elements; each recorded result is decided by an independent Python big-int model (round trip, in-range, suffix-product strides, C-order enumeration, injective buffer addressing in both layouts). Held-on-observed, not a proof.",
+    note="Trusted: Python ints / numpy as the model; " + SAN + "; compile-time-constant index containers are covered by C09, not here.",
+    ref="DESIGN.md 4/C01")
+TARGETS_QUICK = [("c01_index", "asan")]
+
 KINDS = {0: "list", 1: "array", 2: "tuple", 3: "static_vector"}
 ETYPES = {0: ("int", 2**31 - 1), 1: ("size_t", 2**64 - 1), 2: ("int64", 2**63 - 1), 3: ("uint32", 2**32 - 1)}
 
